@@ -1,19 +1,52 @@
-/-! Blank-separated token text on `List Char` (core only; shared by the C02 / C04 text layers). -/
+/-! Whitespace-separated token text on `List Char` (core only; shared by the C02 / C04 / C10 text layers).
+
+    * `isWs` — the characters for which Python's `str.isspace()` holds, which is also the class `\s` of `re`
+      (and of pandas' `str.split(r'\s+')`) on `str` patterns;
+    * `splitBlank` — `s.split()` = `re.split(r'\s+', s.strip())` without empty pieces;
+    * `joinBlank` — `' '.join(tokens)`;
+    * `unlines` / `fileLines` — a text file whose lines are terminated by `'\n'`, and the lines
+      `pd.read_csv(file, sep='@', header=None)` (`StringSeries.read_file`) delivers: split at `'\n'`, blank lines
+      skipped. -/
 namespace Femio.Text
 
 abbrev Str := List Char
+
+/-- the code points `c` with `chr(c).isspace()` (Python 3; identical to the code points matched by `\s`) -/
+def wsCodes : List Nat :=
+  [9, 10, 11, 12, 13, 28, 29, 30, 31, 32, 133, 160, 5760, 8192, 8193, 8194, 8195, 8196, 8197, 8198, 8199, 8200,
+   8201, 8202, 8232, 8233, 8239, 8287, 12288]
+
+def isWs (c : Char) : Bool := wsCodes.contains c.toNat
 
 def joinBlank : List Str → Str
   | [] => []
   | [a] => a
   | a :: b :: t => a ++ ' ' :: joinBlank (b :: t)
 
-/-- split at blanks, dropping empty pieces (`strip()` followed by a split on `\s+`) -/
+/-- split at runs of whitespace, dropping empty pieces (`strip()` followed by a split on `\s+`; `str.split()`) -/
 def splitBlankAux : List Char → Str → List Str
   | [], cur => if cur.isEmpty then [] else [cur.reverse]
   | c :: s, cur =>
-    if c = ' ' ∨ c = '\t' ∨ c = '\r' then (if cur.isEmpty then splitBlankAux s [] else cur.reverse :: splitBlankAux s [])
+    if isWs c then (if cur.isEmpty then splitBlankAux s [] else cur.reverse :: splitBlankAux s [])
     else splitBlankAux s (c :: cur)
 def splitBlank (s : Str) : List Str := splitBlankAux s []
+
+/-- the tokens the lexer gives back unchanged: not empty, no whitespace character (Boolean, evaluated by the
+    drivers on every generated case) -/
+def noWsB (t : Str) : Bool := t.all fun c => !isWs c
+def tokOKB (t : Str) : Bool := !t.isEmpty && noWsB t
+
+/-- every line terminated by a newline -/
+def unlines (ls : List Str) : Str := ls.flatMap fun l => l ++ ['\n']
+
+/-- `s.split('\n')` -/
+def splitLinesAux : List Char → Str → List Str
+  | [], cur => [cur.reverse]
+  | c :: s, cur => if c = '\n' then cur.reverse :: splitLinesAux s [] else splitLinesAux s (c :: cur)
+def splitLines (s : Str) : List Str := splitLinesAux s []
+
+/-- the lines `StringSeries.read_file` delivers: split at newlines, empty lines skipped
+    (`pd.read_csv(..., skip_blank_lines=True)`; a last line without newline is kept) -/
+def fileLines (s : Str) : List Str := (splitLines s).filter fun l => !l.isEmpty
 
 end Femio.Text
